@@ -56,3 +56,73 @@ class LinearSet(object):
 
   def __len__(self):
     return len(self._items)
+
+
+class Q(object):
+  """Exact rational num/den with a CONCRETE positive denominator and a (possibly symbolic) int
+  numerator.  Stands in for the floats carbon derives from integer settings (MAX * 1.05 ...):
+  CrossHair's float model makes every comparison a slow FP query, whereas n/d compared by
+  cross-multiplication with a concrete d is linear integer arithmetic.  Float constants are
+  read as the nearby simple rational (1.05 -> 21/20): 'floats as reals', stated as an assumption."""
+  __slots__ = ('num', 'den')
+
+  def __init__(self, num, den=1):
+    self.num, self.den = num, den
+
+  @staticmethod
+  def _const(x):
+    from fractions import Fraction
+    if isinstance(x, Q):
+      return x.num, x.den
+    if isinstance(x, float):
+      fr = Fraction(x).limit_denominator(10 ** 6)
+      return fr.numerator, fr.denominator
+    return x, 1
+
+  def __mul__(self, other):
+    n, d = Q._const(other)
+    return Q(self.num * n, self.den * d)
+
+  __rmul__ = __mul__
+
+  def _cmp_parts(self, other):
+    n, d = Q._const(other)
+    return self.num * d, n * self.den
+
+  def __eq__(self, other):
+    if isinstance(other, float) and other in (float('inf'), float('-inf')):
+      return False
+    a, b = self._cmp_parts(other)
+    return a == b
+
+  def __ne__(self, other):
+    return not self.__eq__(other)
+
+  def __lt__(self, other):
+    if isinstance(other, float) and other == float('inf'):
+      return True
+    a, b = self._cmp_parts(other)
+    return a < b
+
+  def __le__(self, other):
+    if isinstance(other, float) and other == float('inf'):
+      return True
+    a, b = self._cmp_parts(other)
+    return a <= b
+
+  def __gt__(self, other):
+    if isinstance(other, float) and other == float('inf'):
+      return False
+    a, b = self._cmp_parts(other)
+    return a > b
+
+  def __ge__(self, other):
+    if isinstance(other, float) and other == float('inf'):
+      return False
+    a, b = self._cmp_parts(other)
+    return a >= b
+
+  __hash__ = None
+
+  def __repr__(self):
+    return 'Q(%r/%r)' % (self.num, self.den)
